@@ -337,3 +337,15 @@ def test_fixed_F33_dict_value_iteration_with_zero_probability_successor():
     m = Dict2MDP({'s': {'a': {'g': 1.0, 'pit': 0.0}}, 'g': {'a': {'g': 1.0}}, 'pit': {'a': {'pit': 1.0}}}, {('s', 'a'): -1.0},
                  {'s': 1.0}, absorbing=['g'], gamma=0.9)
     assert ValueIteration(_version='dict').plan_on(m).initial_value == pytest.approx(-1.0)
+
+
+def _pit_mdp(init, succ, gamma=1.0):
+    return Dict2MDP({'start': {'go': succ}, 'goal': {'go': {'goal': 1.0}}, 'pit': {'go': {'pit': 1.0}}},
+                    {('start', 'go'): -1.0, ('pit', 'go'): -1.0}, init, absorbing=['goal'], gamma=gamma)
+
+
+def test_fixed_F34_laostar_ignores_outcomes_listed_with_probability_zero():
+    from msdm.algorithms.laostar import LAOStar
+    for init, succ in (({'start': 1.0}, {'goal': 1.0, 'pit': 0.0}), ({'start': 1.0, 'pit': 0.0}, {'goal': 1.0})):
+        res = LAOStar(heuristic=lambda s: 0, seed=0).plan_on(_pit_mdp(init, succ))
+        assert res.converged and res.initial_value == pytest.approx(-1.0)
